@@ -30,6 +30,14 @@ CLAIMED = {
    technique="bounded-exhaustive cross-implementation enumeration: every stream of the C03/C07 spaces decoded by an independent T.87 Annex A decoder and compared with the library decoder; byte equality of the two encoders at NEAR=0; H.3 vector",
    text="Independent T.87 decoder (written from Annex A: default thresholds with the standard's CLAMP, contexts, bias, limited Golomb, run mode with interruption contexts, ILV 0/2, bit stuffing) decodes every stream of the C03 and C07 spaces and must equal the library decoder's image (NEAR=0: the source). lossless.Encode == nearlossless.Encode(NEAR=0) byte for byte and cross-decoding on every NEAR=0 case. The H.3 example stream as recalled is first decoded by the reference to the H.1 image (self-consistency), then both encoders must emit exactly it.",
    note="Trusted: /verif/harness/ref/t87.go. Its agreement with the published H.3 stream and with the library on all lossless cases is the validation. LSE/non-default parameters are out of scope (property says default parameters)."),
+ "C11": dict(engine="E1 space + DQT-derived oracle", design="§4 C11",
+   technique="bounded-exhaustive enumeration of sizes 1..33^2 x quality x components x codec x content families through baseline/extended Encode/Decode, bound computed from the DQT parsed from each emitted stream",
+   text="Every width and height 1..33 (every partial 8x8 block shape), quality {1,25,50,75,90,100} everywhere and every quality 1..100 at 5 sizes, 1 and 3 components, baseline / extended 8-bit / extended 12-bit, 11 content families (Nyquist checker, stripes, corner impulses, extremes, block-edge steps, noise) plus all tiny images over {0,mid,MAX}. Oracle: matching decoder accepts, geometry equal, per-sample error <= 1/8 sum C(u)C(v)Q[u,v] (+ colour matrix rows) + 2/5, q100 grey <= 10.",
+   note="Contents above 4 samples are a finite family, not all contents; the allowance is the property's own number."),
+ "C15": dict(engine="E1 space + independent encoder/decoder", design="§4 C15",
+   technique="bounded-exhaustive cross-implementation enumeration: library streams into image/jpeg; streams of an independent baseline encoder (sampling x Huffman tables x DRI x APPn x ids x sizes 1..33^2) and of image/jpeg.Encode into baseline.Decode/extended.Decode, compared with image/jpeg",
+   text="Encoder side: every 8-bit stream of the C11 space is decoded by image/jpeg and must agree with the library decoder within 2 (RGB 6). Decoder side: an independent float-DCT baseline encoder enumerates 4:4:4/4:2:2/4:2:0/4:4:0/grey x standard/optimised Huffman x no-DRI/DRI=1/DRI=row x none/JFIF/Adobe x component ids over every size 1..33^2 and 4 contents; image/jpeg.Encode streams too; both library decoders must return w*h*c tightly packed samples within tolerance of image/jpeg.",
+   note="Trusted: Go's image/jpeg (named by the property) and /verif/harness/ref/dctenc.go; every reference stream must first be accepted by image/jpeg with the right geometry or it is not used."),
 }
 NOT_APPLICABLE = {}
 
